@@ -167,7 +167,7 @@ fn e2e_strategy(_t: Tier) -> BoxedStrategy<E2eCase> {
         1 => 9000u32..=65000,
         1 => 65500u32..=65527,
     ];
-    bx((plen, pdu_seed(), lab_addr_or_bcast(), ptype_user(), any::<u8>(), any::<bool>(), 13u16..=4097, 7u16..=4097, prop_oneof![3 => Just(0u8), 1 => Just(1u8), 1 => Just(2u8), 1 => Just(3u8)]).prop_map(
+    bx((plen, pdu_seed(), lab_addr_or_bcast(), ptype_user(), any::<u8>(), any::<bool>(), prop_oneof![4 => 13u16..=4097, 1 => 4098u16..=9000], prop_oneof![4 => 7u16..=4097, 1 => 4098u16..=9000], prop_oneof![3 => Just(0u8), 1 => Just(1u8), 1 => Just(2u8), 1 => Just(3u8)]).prop_map(
         |(len, seed, lab, ptype, frag_id, prime, first_buf, cont_buf, ext)| E2eCase {
             ext,
             pdu: Pdu { len, seed },
